@@ -47,3 +47,10 @@ def run(rep: Report, repo: Repo, tier: str) -> None:
     # event that returns without its push makes the matching end command pop an empty stack (IndexError on a valid file)
     with rep.isolated():
         protocol.rule_defstack(rep, repo, "C05-R14")
+    # the doccomment tokens are bounded by their own delimiters: an unbounded one swallows valid commands or rejects a valid file
+    with rep.isolated():
+        atn_rules.rule_doc_tokens(rep, repo, "C05-R15")
+    # "CMake's argument boundaries": a generic command's arguments are bound as written and in source order
+    from . import bindings as _b
+    with rep.isolated():
+        _b.rule_generic_binding(rep, repo, "C05-R16")
